@@ -45,30 +45,55 @@ def Fits (g : Game) : Move → Prop
       ∧ g.get ⟨homeRow owner, 4⟩ = some ⟨.king, owner⟩ ∧ g.get ⟨homeRow owner, 0⟩ = some ⟨.rook, owner⟩
       ∧ g.get ⟨homeRow owner, 3⟩ = none ∧ g.get ⟨homeRow owner, 2⟩ = none
 
-/-- a castling right implies king and rook on their home squares (and the cached king square) -/
-structure RightsInv (g : Game) : Prop where
-  wk : g.top.wk = true → g.get ⟨0, 4⟩ = some ⟨.king, .white⟩ ∧ g.get ⟨0, 7⟩ = some ⟨.rook, .white⟩ ∧ g.wking = ⟨0, 4⟩
-  wq : g.top.wq = true → g.get ⟨0, 4⟩ = some ⟨.king, .white⟩ ∧ g.get ⟨0, 0⟩ = some ⟨.rook, .white⟩ ∧ g.wking = ⟨0, 4⟩
-  bk : g.top.bk = true → g.get ⟨7, 4⟩ = some ⟨.king, .black⟩ ∧ g.get ⟨7, 7⟩ = some ⟨.rook, .black⟩ ∧ g.bking = ⟨7, 4⟩
-  bq : g.top.bq = true → g.get ⟨7, 4⟩ = some ⟨.king, .black⟩ ∧ g.get ⟨7, 0⟩ = some ⟨.rook, .black⟩ ∧ g.bking = ⟨7, 4⟩
+/-- what the generator additionally guarantees about the mover (needed for the invariants to
+survive `push`; not needed for take-back) -/
+def MoverOk (g : Game) : Move → Prop
+  | .normal pc _ _ cap =>
+    pc.owner = g.player ∧ (pc.pieceType = .king → ∀ c, cap = some c → c.pieceType ≠ .king)
+  | .promotion owner t _ _ _ =>
+    owner = g.player ∧ (t = .queen ∨ t = .rook ∨ t = .bishop ∨ t = .knight)
+  | .enPassant owner _ ec => owner = g.player ∧ g.top.enPassant = ec
+  | .castlingShort _ => True
+  | .castlingLong _ => True
 
-/-- the cached king squares are on the board; the side to move's king, when it exists at all,
-is where the cache says (after an unchecked king capture the side to move has no king and
-`get_moves` answers with the empty list) -/
+/-- a castling right implies the rook on its home square, the cached king square at home, and —
+unless that king has just been captured on an unchecked search line — the king there -/
+structure RightsInv (g : Game) : Prop where
+  wk : g.top.wk = true → g.get ⟨0, 7⟩ = some ⟨.rook, .white⟩ ∧ g.wking = ⟨0, 4⟩
+    ∧ (g.kingExists .white = true → g.get ⟨0, 4⟩ = some ⟨.king, .white⟩)
+  wq : g.top.wq = true → g.get ⟨0, 0⟩ = some ⟨.rook, .white⟩ ∧ g.wking = ⟨0, 4⟩
+    ∧ (g.kingExists .white = true → g.get ⟨0, 4⟩ = some ⟨.king, .white⟩)
+  bk : g.top.bk = true → g.get ⟨7, 7⟩ = some ⟨.rook, .black⟩ ∧ g.bking = ⟨7, 4⟩
+    ∧ (g.kingExists .black = true → g.get ⟨7, 4⟩ = some ⟨.king, .black⟩)
+  bq : g.top.bq = true → g.get ⟨7, 0⟩ = some ⟨.rook, .black⟩ ∧ g.bking = ⟨7, 4⟩
+    ∧ (g.kingExists .black = true → g.get ⟨7, 4⟩ = some ⟨.king, .black⟩)
+
+/-- the cached king squares are on the board, and every king on the board stands on the cached
+square of its colour (after an unchecked king capture the cache points at a square without that
+king, and `get_moves` answers with the empty list) -/
 structure KingInv (g : Game) : Prop where
   wvalid : g.wking.Valid
   bvalid : g.bking.Valid
   unique : ∀ (p : Pos) (pl : Player), p.Valid → g.get p = some ⟨.king, pl⟩ → g.kingPos pl = p
+
+/-- a recorded en-passant file is backed by the enemy pawn that has just made its double step,
+with the square behind it empty -/
+def EpInv (g : Game) : Prop :=
+  g.top.enPassant < 8 →
+    match g.player with
+    | .white => g.get ⟨4, g.top.enPassant⟩ = some ⟨.pawn, .black⟩ ∧ g.get ⟨5, g.top.enPassant⟩ = none
+    | .black => g.get ⟨3, g.top.enPassant⟩ = some ⟨.pawn, .white⟩ ∧ g.get ⟨2, g.top.enPassant⟩ = none
 
 /-- representation invariant of the concrete state -/
 structure WF (g : Game) : Prop where
   cache : g.CacheInv
   kings : g.KingInv
   rights : g.RightsInv
+  epInv : g.EpInv
   resHash : g.resHash = (if g.player = .black then Gen.blackToMove else 0) ^^^ g.top.hash
   resScore : g.resScore = 0
   nonempty : g.state ≠ []
-  ep : g.top.enPassant ≤ 8
+  ep : 0 ≤ g.top.enPassant ∧ g.top.enPassant ≤ 8
 
 end Game
 end Chess
